@@ -120,6 +120,10 @@ pub enum Surgery {
     /// (lookup type 8; only one large corpus font has one) keyed on `glyphs`, with format 1 or 2
     /// coverages and optional backtrack / lookahead coverages, followed by a SingleSubst.
     InstallReverseChain { glyphs: Vec<u16>, variant: u64 },
+    /// Replace GSUB by a small table whose `ccmp` and `liga` features hold `lookups` MultipleSubst
+    /// lookups (type 2), each of which replaces every glyph of `glyphs` by `k` glyphs of the list:
+    /// the run grows by a factor `k` per lookup. No corpus font expands by more than a few glyphs.
+    InstallExpansion { glyphs: Vec<u16>, k: u16, lookups: u8, variant: u64 },
     /// Re-pack `hmtx` with only `num_h_metrics` long metrics (glyphs after that take the last
     /// advance and keep their side bearing) and update `hhea`. Every corpus CFF2 font and most
     /// others have numberOfHMetrics == numGlyphs, which hides the compact form from the writers.
